@@ -37,6 +37,7 @@ def drive(mod, fn, args, script, gen_script=None):
     del mod.LOG[:]
     del mod.BLOG[:]
     mod.LATEST.clear()
+    del mod.CLOG[:]
     yields = []
     if gen_script is None:
         out = outcome_of(lambda: fn(*args))
